@@ -119,7 +119,7 @@ var vocab = map[string]map[string]string{
 		"mutate.committed": "mutate.committed", "mutate.stored": "mutate.stored"},
 	"r":      {"call": "call", "GetLog.checked": "GetLog.checked", "acquireState.loaded": "acquireState.loaded"},
 	"closer": {"call": "call", "Close.flagged": "Close.flagged", "Close.stored": "Close.stored"},
-	"stable": {"call": "call", "Set.checked": "Set.checked"},
+	"stable": {"call": "call", "Set.checked": "Set.checked", "sset": "sset"},
 }
 
 func kind(proc string) string {
@@ -263,6 +263,7 @@ func runScenario(sc *Scenario) {
 		setHook(func(site string) { ctl.at(site) })
 		if wd.rec != nil {
 			wd.rec.SyncHook = func(string) { ctl.at("sync") }
+			wd.meta.Hook = func(c string) { ctl.at(c) }
 		}
 	} else {
 		setHook(nil)
